@@ -908,6 +908,18 @@ func (c *runner) checkParse(text string, group selector.SelectorGroup, perr erro
 		case ans.Xs[1].String() != implX:
 			diff(implX, ans.Xs[1].String(), "the parsed ASTs differ")
 		default:
+			// print_parse_roundtrip on this instance: the parsed AST is printable unless a name holds U+0000,
+			// and a printable AST is read back by the model parser from the model printer's text
+			hasNUL := strings.Contains(implX, "\\u{0}")
+			printable, rt := len(ans.Xs) == 5 && ans.Xs[3].S == "1", len(ans.Xs) == 5 && ans.Xs[4].S == "1"
+			c.out.Hit("parse:printable=" + ans.Xs[3].S)
+			if printable == hasNUL {
+				diff(implX, "printable="+ans.Xs[3].S, "groupPrintable of a parsed selector list must hold exactly when no name or value contains U+0000")
+			}
+			if printable && !rt {
+				c.add(res.Finding{Kind: "judge", Op: "judge:model-roundtrip", Input: input, Model: ans.Xs[2].S,
+					Reason: "the parser model does not read the printer model's text back to the same AST although groupPrintable holds (contradicts theorem WR.Props.C05.print_parse_roundtrip)", Seed: seed})
+			}
 			var printed string
 			if p := guard(func() { printed = group.String() }); p != "" {
 				c.add(res.Finding{Kind: "crash", Op: "crash:String", Input: input, Reason: p, Key: "String", Seed: seed})
